@@ -282,6 +282,10 @@ impl FormatSpec {
         let (alternate_form, text) = parse_alternate_form(text);
         let (zero, text) = parse_zero(text);
         let (width, text) = parse_number(text)?;
+        // the padding arithmetic below is done in `i32`
+        if width.is_some_and(|w| w > i32::MAX as usize) {
+            return Err(FormatSpecError::DecimalDigitsTooMany);
+        }
         let (grouping_option, text) = FormatGrouping::parse(text);
         let (precision, text) = parse_precision(text)?;
         let (format_type, text) = FormatType::parse(text);
